@@ -15,15 +15,22 @@ namespace sprips {
 
 using FV = double;
 using ST = Gudhi::Simplex_tree<>;
-constexpr std::int64_t BIG = vf::INF_CODE;
+constexpr std::int64_t BIG = std::int64_t(1) << 30;   // BIG of SparseRips.tla (above every distance of the 'wide' family)
 
 struct Input {
   int n = 0;
   std::vector<std::vector<FV>> D;                 // full symmetric matrix
   std::vector<std::vector<FV>> coords;            // optional: points of Z^k whose L1 distances are D
+  FV scale = 1;                                   // a power of two: the library is given scale * D (exact in double, the
+                                                  // construction is homogeneous), values are divided by it when read back
+  std::vector<std::vector<FV>> scaled(const std::vector<std::vector<FV>>& m) const {
+    std::vector<std::vector<FV>> r = m;
+    for (auto& row : r) for (auto& x : row) x *= scale;
+    return r;
+  }
   std::vector<std::vector<FV>> lower() const {    // lower[i][j], j < i
     std::vector<std::vector<FV>> l(n);
-    for (int i = 0; i < n; ++i) for (int j = 0; j < i; ++j) l[i].push_back(D[i][j]);
+    for (int i = 0; i < n; ++i) for (int j = 0; j < i; ++j) l[i].push_back(D[i][j] * scale);
     return l;
   }
   bj::array d_set() const {
@@ -71,13 +78,13 @@ inline Cx cx_of_json(const bj::value& k_set) {
   return c;
 }
 
-inline Cx read_complex(ST& st) {
+inline Cx read_complex(ST& st, FV scale = 1) {
   Cx c;
   for (auto sh : st.complex_simplex_range()) {
     std::vector<int> s;
     for (auto v : st.simplex_vertex_range(sh)) s.push_back(v);
     std::sort(s.begin(), s.end());
-    double f = st.filtration(sh);
+    double f = st.filtration(sh) / scale;
     if (!(std::floor(f) == f) || std::fabs(f) > 1e9) {
       std::ostringstream o;
       o.precision(17);
@@ -104,7 +111,7 @@ struct L1 {
 inline Cx run_sparse(const Input& in, const Params& pr, const std::string& form) {
   namespace R = Gudhi::rips_complex;
   const FV ninf = -std::numeric_limits<FV>::infinity(), pinf = std::numeric_limits<FV>::infinity();
-  const FV mini = pr.mini == 0 ? ninf : static_cast<FV>(pr.mini), maxi = pr.maxi == BIG ? pinf : static_cast<FV>(pr.maxi);
+  const FV mini = pr.mini == 0 ? ninf : static_cast<FV>(pr.mini) * in.scale, maxi = pr.maxi == BIG ? pinf : static_cast<FV>(pr.maxi) * in.scale;
   ST st;
   try {
     if (form == "matrix") {
@@ -114,19 +121,19 @@ inline Cx run_sparse(const Input& in, const Params& pr, const std::string& form)
     } else if (form == "points") {
       std::vector<int> pts(in.n);
       for (int i = 0; i < in.n; ++i) pts[i] = i;
-      auto dist = [&](int a, int b) { return in.D[a][b]; };
+      auto dist = [&](int a, int b) { return in.D[a][b] * in.scale; };
       if (pr.defaults()) { R::Sparse_rips_complex<FV> s(pts, dist, pr.eps()); s.create_complex(st, pr.dmax); }
       else { R::Sparse_rips_complex<FV> s(pts, dist, pr.eps(), mini, maxi); s.create_complex(st, pr.dmax); }
     } else {
-      if (pr.defaults()) { R::Sparse_rips_complex<FV> s(in.coords, L1(), pr.eps()); s.create_complex(st, pr.dmax); }
-      else { R::Sparse_rips_complex<FV> s(in.coords, L1(), pr.eps(), mini, maxi); s.create_complex(st, pr.dmax); }
+      if (pr.defaults()) { R::Sparse_rips_complex<FV> s(in.scaled(in.coords), L1(), pr.eps()); s.create_complex(st, pr.dmax); }
+      else { R::Sparse_rips_complex<FV> s(in.scaled(in.coords), L1(), pr.eps(), mini, maxi); s.create_complex(st, pr.dmax); }
     }
   } catch (const std::exception& e) {
     Cx c;
     c.exception = e.what();
     return c;
   }
-  return read_complex(st);
+  return read_complex(st, in.scale);
 }
 
 inline Cx run_rips(const Input& in, int dmax, const std::string& form) {
@@ -140,10 +147,10 @@ inline Cx run_rips(const Input& in, int dmax, const std::string& form) {
     } else if (form == "points") {
       std::vector<int> pts(in.n);
       for (int i = 0; i < in.n; ++i) pts[i] = i;
-      R::Rips_complex<FV> r(pts, pinf, [&](int a, int b) { return in.D[a][b]; });
+      R::Rips_complex<FV> r(pts, pinf, [&](int a, int b) { return in.D[a][b] * in.scale; });
       r.create_complex(st, dmax);
     } else {
-      R::Rips_complex<FV> r(in.coords, pinf, L1());
+      R::Rips_complex<FV> r(in.scaled(in.coords), pinf, L1());
       r.create_complex(st, dmax);
     }
   } catch (const std::exception& e) {
@@ -151,7 +158,7 @@ inline Cx run_rips(const Input& in, int dmax, const std::string& form) {
     c.exception = e.what();
     return c;
   }
-  return read_complex(st);
+  return read_complex(st, in.scale);
 }
 
 }  // namespace sprips
